@@ -5,7 +5,7 @@ from contracts import c02
 
 
 def registry():
-    reg = base_registry(('Cell', 'Executor'))
+    reg = base_registry(('Cell', 'Executor', 'EmptyCell'))
     base = c02.registry()
     for k in ('colnum', 'is_colname', 'is_digits', 'str_to_int', 'wf_data', 'lookup'):
         reg.specfns[k] = base.specfns[k]
